@@ -2,24 +2,24 @@
 # usage: tools_lanes.sh <lanes> <jobfile>    jobfile: one "<id> <patch> <Cxx> [tier]" per line
 # Evaluates seeded changes in parallel without touching /repo or /verif: every lane gets copies of both (the copy of /verif with
 # its build directory) bound over /repo and /verif in a private mount namespace, applies the patch there, runs the check, undoes it.
-# Results: /tmp/lanes/out/<id>.log (filtered output of tools_seed.sh) and one summary line per job on stdout.
+# Results: $L/out/<id>.log (filtered output of tools_seed.sh) and one summary line per job on stdout.
 # The lanes and their build output are removed at the end.
 set -u
-N=$1; JOBS=$2
-rm -rf /tmp/lanes; mkdir -p /tmp/lanes/out
+N=$1; JOBS=$2; L=${LANES_DIR:-/tmp/lanes}
+rm -rf $L; mkdir -p $L/out
 for k in $(seq 1 $N); do
-  mkdir -p /tmp/lanes/$k
-  rsync -a --exclude target /repo/ /tmp/lanes/$k/repo/
-  rsync -a --exclude .work --exclude replays /verif/ /tmp/lanes/$k/verif/
-  mkdir -p /tmp/lanes/$k/verif/.work
-  awk -v n=$N -v k=$k 'NF && (NR-1)%n==k-1' $JOBS > /tmp/lanes/$k/jobs
+  mkdir -p $L/$k
+  rsync -a --exclude target /repo/ $L/$k/repo/
+  rsync -a --exclude .work --exclude replays /verif/ $L/$k/verif/
+  mkdir -p $L/$k/verif/.work
+  awk -v n=$N -v k=$k 'NF && (NR-1)%n==k-1' $JOBS > $L/$k/jobs
 done
 for k in $(seq 1 $N); do
-  unshare -m bash -c "mount --bind /tmp/lanes/$k/repo /repo && mount --bind /tmp/lanes/$k/verif /verif && cd /verif && \
+  unshare -m bash -c "mount --bind $L/$k/repo /repo && mount --bind $L/$k/verif /verif && cd /verif && \
     while read ID PATCH PROP TIER; do \
-      ./tools_seed.sh \$PATCH \$PROP \${TIER:-quick} > /tmp/lanes/out/\$ID.log 2>&1; \
-      echo \"\$ID \$PROP violations=\$(grep -a -c '^VIOLATION' /tmp/lanes/out/\$ID.log) \$(grep -a '^exit=' /tmp/lanes/out/\$ID.log | tail -1) \$(grep -a -m1 -E '^MACHINERY|patch does not apply|not clean' /tmp/lanes/out/\$ID.log | cut -c1-100)\"; \
-    done < /tmp/lanes/$k/jobs" &
+      ./tools_seed.sh \$PATCH \$PROP \${TIER:-quick} > $L/out/\$ID.log 2>&1; \
+      echo \"\$ID \$PROP violations=\$(grep -a -c '^VIOLATION' $L/out/\$ID.log) \$(grep -a '^exit=' $L/out/\$ID.log | tail -1) \$(grep -a -m1 -E '^MACHINERY|patch does not apply|not clean' $L/out/\$ID.log | cut -c1-100)\"; \
+    done < $L/$k/jobs" &
 done
 wait
-for k in $(seq 1 $N); do rm -rf /tmp/lanes/$k; done
+for k in $(seq 1 $N); do rm -rf $L/$k; done
